@@ -161,6 +161,10 @@ Definition op_matched (op : txnop) (s : st) : bool :=
   match op with
   | TKV VCAS q => cas_ok kv_modify (kvs s !! q_key q) (q_index q)
   | TKV VDeleteCAS q => match kvs s !! q_key q with Some e => bool_decide (kv_modify e = q_index q) | None => true end
+  (* the guard verbs make the whole transaction conditional; they write nothing themselves *)
+  | TKV VCheckIndex q => match kvs s !! q_key q with Some e => bool_decide (kv_modify e = q_index q) | None => false end
+  | TKV VCheckNotExists q => match kvs s !! q_key q with Some _ => false | None => true end
+  | TKV VCheckSession q => match kvs s !! q_key q with Some e => bool_decide (kv_session e = q_session q) | None => false end
   | TNode CCAS nd _ _ cidx => cas_ok n_modify (nodes s !! nd) cidx
   | TNode CDeleteCAS nd _ _ cidx => match nodes s !! nd with Some x => bool_decide (n_modify x = cidx) | None => false end
   | TService CCAS nd svc _ _ cidx => cas_ok sv_modify (services s !! (nd, svc)) cidx
@@ -188,10 +192,16 @@ Definition op_write (idx : N) (op : txnop) (s : st) : result st :=
 
 Definition is_cond (op : txnop) : bool :=
   match op with
-  | TKV VCAS _ | TKV VDeleteCAS _ | TNode CCAS _ _ _ _ | TNode CDeleteCAS _ _ _ _
+  | TKV VCAS _ | TKV VDeleteCAS _ | TKV VCheckIndex _ | TKV VCheckNotExists _ | TKV VCheckSession _
+  | TNode CCAS _ _ _ _ | TNode CDeleteCAS _ _ _ _
   | TService CCAS _ _ _ _ _ | TService CDeleteCAS _ _ _ _ _ | TCheck CCAS _ | TCheck CDeleteCAS _ => true
   | _ => false
   end.
+
+Definition is_guard (op : txnop) : bool :=
+  match op with TKV VCheckIndex _ | TKV VCheckNotExists _ | TKV VCheckSession _ => true | _ => false end.
+(* the error a mismatch is reported with *)
+Definition mismatch_err (op : txnop) : err := if is_guard op then EGuard else EStale.
 
 (* the heart: a conditional verb succeeds iff it matched and its write succeeded, and then its
    state is the write's state; it fails with "stale" exactly on a mismatch *)
@@ -199,11 +209,11 @@ Lemma cond_op_spec idx op s :
   is_cond op = true ->
   match txn_op idx op s with
   | Ok (s', _) => op_matched op s = true /\ op_write idx op s = Ok s'
-  | Err e _ => (op_matched op s = false /\ e = EStale) \/ (op_matched op s = true /\ r_ok (op_write idx op s) = false)
+  | Err e _ => (op_matched op s = false /\ e = mismatch_err op) \/ (op_matched op s = true /\ r_ok (op_write idx op s) = false)
   end.
 Proof.
   destruct op as [v q|v nd id addr cidx|v nd svc name port cidx|v c|sid]; try discriminate;
-    destruct v; try discriminate; intros _; cbn [txn_op txn_kv txn_node txn_service txn_check op_matched op_write].
+    destruct v; try discriminate; intros _; cbn [txn_op txn_kv txn_node txn_service txn_check op_matched op_write mismatch_err is_guard].
   - (* kv delete-cas *)
     unfold kvs_delete_cas. destruct (kvs s !! q_key q) as [x|] eqn:E; cbn.
     + destruct (bool_decide (kv_modify x = q_index q)); cbn; [split; reflexivity|left; split; reflexivity].
@@ -215,6 +225,14 @@ Proof.
       try (left; split; reflexivity);
       try (destruct (bool_decide (q_index q = kv_modify x)); cbn; [|left; split; reflexivity]);
       destruct (kvs_set idx (q_key q) (ent_of q) false s) as [s1 e1]; cbn; split; reflexivity.
+  - (* kv check-session *)
+    destruct (kvs s !! q_key q) as [x|]; [|left; split; reflexivity].
+    destruct (bool_decide (kv_session x = q_session q)); [split; reflexivity|left; split; reflexivity].
+  - (* kv check-index *)
+    destruct (kvs s !! q_key q) as [x|]; [|left; split; reflexivity].
+    destruct (bool_decide (kv_modify x = q_index q)); [split; reflexivity|left; split; reflexivity].
+  - (* kv check-not-exists *)
+    destruct (kvs s !! q_key q) as [x|]; [left; split; reflexivity|split; reflexivity].
   - (* node cas *)
     destruct (cas_ok n_modify (nodes s !! nd) cidx); [|left; split; reflexivity].
     destruct (ensure_node idx nd id addr s) as [s1|e p]; cbn; [|right; split; reflexivity].
@@ -262,9 +280,10 @@ Proof.
   - reflexivity.
 Qed.
 
-(* a mismatch is reported as the "stale" error of that operation *)
+(* a mismatch is reported as the "stale" (guard verbs: "guard failed") error of that operation *)
 Theorem txn_cond_mismatch_is_stale s c :
-  is_cond (tx_op c) = true -> op_matched (tx_op c) s = false -> txn1 c s = (s, CTxn [] [(0%nat, EStale)]).
+  is_cond (tx_op c) = true -> op_matched (tx_op c) s = false ->
+  txn1 c s = (s, CTxn [] [(0%nat, mismatch_err (tx_op c))]).
 Proof.
   destruct c as [idx op]. cbn. intros Hc Hm. rewrite txn1_eq. cbn.
   pose proof (cond_op_spec idx op s Hc) as H. destruct (txn_op idx op s) as [[s' r]|e p].
@@ -280,6 +299,33 @@ Proof.
   intros H1 Hc Hm. apply (txn_failed_op_aborts idx ops1 op ops2 s s1 r1 H1).
   pose proof (cond_op_spec idx op s1 Hc) as H. destruct (txn_op idx op s1) as [[s' r]|e p]; [|reflexivity].
   destruct H; congruence.
+Qed.
+
+(* the success direction, for transactions of any length: a transaction is reported committed iff
+   every operation succeeds when run in sequence (each on the state its predecessors produced), and
+   then its state is that sequential composition; otherwise the state is untouched.  With
+   [cond_op_spec]: every conditional operation of a committed transaction matched in ITS
+   intermediate state. *)
+Theorem txn_all_parts_or_none idx ops s :
+  match seq_ops idx ops s with
+  | Ok (s', _) => txn_ok (txn_rw idx ops s).2 = true /\ (txn_rw idx ops s).1 = s'
+  | Err _ _ => txn_ok (txn_rw idx ops s).2 = false /\ (txn_rw idx ops s).1 = s
+  end.
+Proof.
+  pose proof (txn_ok_iff_seq idx ops s) as Hok. pose proof (txn_post idx ops s) as Hpost.
+  destruct (seq_ops idx ops s) as [[s' r]|e p]; cbn in *; split; try assumption.
+  - apply Hok. reflexivity.
+  - destruct (txn_ok _); [|reflexivity]. destruct Hok as [Hok _]. discriminate (Hok eq_refl).
+Qed.
+
+Theorem txn_committed_cond_op_matched idx ops1 op ops2 s s1 r1 :
+  seq_ops idx ops1 s = Ok (s1, r1) -> is_cond op = true ->
+  txn_ok (txn_rw idx (ops1 ++ op :: ops2) s).2 = true ->
+  op_matched op s1 = true /\ r_ok (op_write idx op s1) = true.
+Proof.
+  intros H1 Hc Hok. apply txn_ok_iff_seq in Hok. rewrite seq_ops_app, H1 in Hok. cbn in Hok.
+  pose proof (cond_op_spec idx op s1 Hc) as H. destruct (txn_op idx op s1) as [[s2 r]|e p]; [|discriminate].
+  destruct H as [Hm Hw]. rewrite Hw. split; [assumption|reflexivity].
 Qed.
 
 (* ---------- visibility of the simple writes ---------- *)
@@ -322,6 +368,25 @@ Example ex_node_cas_stale :
   let c := TXC 7 (TNode CCAS "n1" "id1" 9 1) in
   txn1 c ex_state = (ex_state, CTxn [] [(0%nat, EStale)]).
 Proof. apply txn_cond_mismatch_is_stale; vm_compute; reflexivity. Qed.
+
+(* the conditional verb is NOT first: [set a; cas a <index before the set>] -- the cas sees the set's
+   write, so the old index is stale, and nothing of the transaction (the set included) survives *)
+Example ex_txn_cond_not_first :
+  let ops1 := [TKV VSet (KVReq "a" [7] 0 "" 0 0)] in
+  let op := TKV VCAS (KVReq "a" [8] 0 "" 3 0) in
+  (exists s1 r1, seq_ops 7 ops1 ex_state = Ok (s1, r1) /\ op_matched op s1 = false /\ op_matched op ex_state = true) /\
+  txn_ok (txn_rw 7 (ops1 ++ op :: [TKV VSet (KVReq "t" [9] 0 "" 0 0)]) ex_state).2 = false /\
+  (txn_rw 7 (ops1 ++ op :: [TKV VSet (KVReq "t" [9] 0 "" 0 0)]) ex_state).1 = ex_state.
+Proof.
+  cbv zeta. split; [eexists; eexists; split; [vm_compute; reflexivity|split; vm_compute; reflexivity]|].
+  split; vm_compute; reflexivity.
+Qed.
+
+(* a failing guard verb after a matching cas: nothing applied *)
+Example ex_txn_guard_after_cas :
+  let ops := [TKV VCAS (KVReq "a" [8] 0 "" 3 0); TKV VCheckIndex (KVReq "t" [] 0 "" 5 0)] in
+  (txn_rw 7 ops ex_state).2 = CTxn [] [(1%nat, EGuard)] /\ (txn_rw 7 ops ex_state).1 = ex_state.
+Proof. cbv zeta. split; vm_compute; reflexivity. Qed.
 
 (* a matching index whose write is rejected (another ID for the name of a healthy node): an error,
    not "stale", and nothing applied -- the case repaired by commit 0a9dcef *)
